@@ -2,9 +2,11 @@
 # tools/confirm_seed.sh <id> [script] : confirm a seeded change in its scratch worktree /tmp/seedwt-<id>:
 # the demonstration passes on the clean tree, fails with the patch; tree restored afterwards.
 id=$1; s=${2:-run.sh}; wt=/tmp/seedwt-$id; d=/tmp/seed-$id
-git -C $wt checkout -q -- . 
-(cd $d && timeout 1800 sh $d/$s > $d/confirm_clean.log 2>&1); c=$?
+git -C $wt checkout -q -- .
+[ -d $wt/_b ] && cmake --build $wt/_b --target parsec parsec-ptgpp -j 4 > $d/confirm_build0.log 2>&1
+(cd $d && timeout 2400 bash $d/$s > $d/confirm_clean.log 2>&1); c=$?
 git -C $wt apply $d/patch.diff || { echo "$id: patch does not apply"; exit 2; }
-(cd $d && timeout 1800 sh $d/$s > $d/confirm_patched.log 2>&1); p=$?
+[ -d $wt/_b ] && cmake --build $wt/_b --target parsec parsec-ptgpp -j 4 > $d/confirm_build1.log 2>&1
+(cd $d && timeout 2400 bash $d/$s > $d/confirm_patched.log 2>&1); p=$?
 git -C $wt checkout -q -- .
 echo "$id: demo clean rc=$c patched rc=$p"
